@@ -84,6 +84,24 @@ PARTS = {
       S('swap-array-asan', 'asan', 'prop=C10', 'kind=array', 'two=1', 'maxlen=2', 'nvals=2'),
     ],
   },
+  # ---- C11: iteration of the base containers after ANY history (not only containers built by pushing): forward count == len,
+  #      i-th item is get(i), backward (iter_last/iter_prev) = exact reverse of forward and then Terminal; full alphabet incl. aliasing
+  'C11': {
+    'quick': [
+      S('iter-array5', 'base', 'prop=C11', 'kind=array', 'maxlen=5'),
+      S('iter-list5', 'base', 'prop=C11', 'kind=list', 'maxlen=5'),
+      S('iter-tuple5', 'base', 'prop=C11', 'kind=tuple', 'maxlen=5'),
+      S('iter-list3-asan', 'asan', 'prop=C11', 'kind=list', 'maxlen=3'),
+    ],
+    'thorough': [
+      S('iter-array7', 'base', 'prop=C11', 'kind=array', 'maxlen=7'),
+      S('iter-list7', 'base', 'prop=C11', 'kind=list', 'maxlen=7'),
+      S('iter-tuple7', 'base', 'prop=C11', 'kind=tuple', 'maxlen=7'),
+      S('iter-array4-asan', 'asan', 'prop=C11', 'kind=array', 'maxlen=4'),
+      S('iter-list4-asan', 'asan', 'prop=C11', 'kind=list', 'maxlen=4'),
+      S('iter-tuple4-asan', 'asan', 'prop=C11', 'kind=tuple', 'maxlen=4'),
+    ],
+  },
   # ---- C12: failing operations as self-loops in every state of the C04 state graph
   'C12': {
     'quick': [
